@@ -418,7 +418,7 @@ pub fn gen_contract(ch: &mut Choices) -> (String, Vec<&'static str>) {
     let n_l1 = ch.below(3);
     let ctor = ch.bool();
     let mut feats = vec![];
-    let mut body = |ch: &mut Choices, feats: &mut Vec<&'static str>, view: bool| -> String {
+    let body = |ch: &mut Choices, feats: &mut Vec<&'static str>, view: bool| -> String {
         loop {
             let (k, b) = *ch.pick(BODIES);
             if view && (k == "storage" || k == "map") {
